@@ -192,11 +192,7 @@ MECH = {}
 
 
 def mech_of(attr, shapes, page_index, removed):
-    base = attr.split(":")[0].split("(")[0]
-    if base.startswith("border_width"):
-        return "border_width_never_emitted"
-    if base.startswith("border_color"):
-        return "border_color_never_emitted"
+    """no open known finding for C09: every violation is reported"""
     return None
 
 
@@ -285,8 +281,6 @@ def check_spec(ctx, spec):
                 continue
             reported.add(key)
             mech = mech_of(attr, shapes, info["page"], removed)
-            if mech is None and info["page"] > 0 and shapes.get(base) == "matrix":
-                mech = "matrix_attribute_rebased_per_page"
             ctx.violation(f"cell d{r}c{c} (page {info['page'] + 1}/{n}): {attr} is {got}, body attribute "
                           f"({shapes.get(base, 'default')}) gives {want}", case,
                           {"attr": attr, "want": want, "got": got, "cell": [r, c], "page": info["page"],
@@ -310,13 +304,12 @@ def check_spec(ctx, spec):
                         for side in "lr":
                             if a["borders"].get(side) != b["borders"].get(side):
                                 ctx.violation(f"cell d{key[0]}c{key[1]}: {side} border differs between paginated and "
-                                              f"unpaginated rendering", case, {"mech": "matrix_attribute_rebased_per_page"
-                                                                               if info["page"] > 0 else None})
+                                              f"unpaginated rendering", case, {"mech": None})
                                 return
                     elif a[k] != b[k]:
                         ctx.violation(f"cell d{key[0]}c{key[1]}: {k} = {a[k]} paginated (page {info['page'] + 1}) but "
                                       f"{b[k]} unpaginated", case,
-                                      {"mech": "matrix_attribute_rebased_per_page" if info["page"] > 0 else None})
+                                      {"mech": None})
                         return
 
 
